@@ -31,6 +31,8 @@ from __future__ import annotations
 import io
 import os
 import random
+import signal
+import sys
 from collections import Counter
 from typing import Any, Dict, List, Optional, Tuple
 
@@ -65,7 +67,10 @@ ASSUMPTIONS = [
     "attributes are compared through a shallow copy of vars(obj); in-place mutation of a shared PDFGraphicState is not observed",
     "step budget 200000 + n^2 (2500 (log2 n + 1) + 300 cells) (n glyphs, cells = 50-unit grid cells of the page) is >= 20x the "
     "largest cost observed on the intact tree (evidence: budget_used_pct_bucket counters; a case above 5% is reported as "
-    "inconclusive); cases of a shard run in ascending glyph count, so that a runaway is met on a small input first",
+    "inconclusive); cases of a shard run in ascending glyph count, so that a runaway is met on a small input first; the phases "
+    "group_objects and group_textlines have their own allowances inside it (100000 + 6000 n steps for n glyphs; 100000 + 4000 m (cells "
+    "+ m) for m lines; group_textboxes 100000 + 150 b^2 (b + cells) for b boxes), also >= 20x the largest cost seen; no budget depends on "
+    "the LAParams values; the first shard that meets a budget hit raises a flag in the run's work directory and the other shards stop",
     "a text line outside any text box (direct child of the page) is how pdfminer keeps blank or zero-area glyphs; accepted as part of "
     "the hierarchy",
 ]
@@ -216,14 +221,17 @@ def run_scene(scene: Dict[str, Any], rec: Any = None) -> List[Tuple[str, str]]:
     try:
         page.analyze(la)
     except StepBudgetExceeded as e:
-        fails.append(("step_budget", "%s (glyphs=%d)" % (e, _nglyphs(scene["items"]))))
+        fails.append(("step_budget:" + MON.budget_phase_key, "%s in %s (glyphs=%d)" % (e, MON.budget_phase or "analyze (overall budget)", _nglyphs(scene["items"]))))
     except RecursionError as e:
         fails.append(("exception:RecursionError", repr(e)[:200]))
     except Exception as e:  # noqa: BLE001
         fails.append((_exc_key(e), "%s: %s" % (type(e).__name__, e)))
     tops = list(MON.tops)
+    phases = dict(MON.phase_pct)
     mfails, stats = MON.drain()
     fails.extend(mfails)
+    if rec is not None:
+        _phase_stats(phases, rec, bool(fails))
     if not fails:
         want: Counter = Counter()
         _scene_leaves(scene["items"], want)
@@ -239,6 +247,13 @@ def run_scene(scene: Dict[str, Any], rec: Any = None) -> List[Tuple[str, str]]:
         rec.count("scene_pages")
         _budget_stats(tops, rec, bool(fails))
     return fails
+
+
+def _phase_stats(phases: Dict[str, float], rec: Any, failed: bool) -> None:
+    for name, pct in phases.items():
+        rec.count("phase_allowance_used_pct_bucket:%s:%s" % (name, _bucket(pct)))
+        if pct > 5 and not failed:
+            rec.inconclusive("phase_allowance_margin_below_20x:" + name)
 
 
 def _budget_stats(tops: List[Tuple[int, int, int]], rec: Any, failed: bool) -> None:
@@ -345,16 +360,18 @@ def run_pdf(data: bytes, la_spec: Dict[str, Any], rec: Any = None, password: str
                 rec.count("pages_analysed")
                 rec.count("pdf_glyphs", sum(n for k, n in got.items() if k[0] == "LTChar"))
     except StepBudgetExceeded as e:
-        fails.append(("step_budget", str(e)))
+        fails.append(("step_budget:" + MON.budget_phase_key, "%s in %s" % (e, MON.budget_phase or "analyze (overall budget)")))
     except RecursionError as e:
         fails.append(("exception:RecursionError", repr(e)[:200]))
     except Exception as e:  # noqa: BLE001
         fails.append((_exc_key(e), "%s: %s" % (type(e).__name__, e)))
     tops = list(MON.tops)
+    phases = dict(MON.phase_pct)
     mfails, stats = MON.drain()
     fails.extend(mfails)
     if rec is not None:
         _budget_stats(tops, rec, bool(fails))
+        _phase_stats(phases, rec, bool(fails))
     if npages and stats.get("analyze_invocations", 0) < npages:
         fails.append(("harness:analyze_not_observed", "%d pages, %d invocations" % (npages, stats.get("analyze_invocations", 0))))
     if rec is not None:
@@ -405,19 +422,73 @@ MAX_FAILING_CASES = 8
 _FAILING = [0]
 
 
+class _StopShard(BaseException):
+    """Raised from a timer signal when another shard of the same run has met a runaway."""
+
+
+def _flag_path() -> Optional[str]:
+    # vf.worker is started as `worker <check> <workdir>/specNNNNN.json <workdir>/outNNNNN.json`; the runner removes the workdir
+    if len(sys.argv) >= 4 and os.path.basename(sys.argv[2]).startswith("spec"):
+        return os.path.join(os.path.dirname(os.path.abspath(sys.argv[2])), "c08-runaway.flag")
+    return None
+
+
+def _flag_is_up() -> bool:
+    p = _flag_path()
+    return p is not None and os.path.exists(p)
+
+
+def _watch_flag(on: bool) -> None:
+    """A budget hit may take minutes on a large page.  The first shard that meets one (small pages come first, so
+    within seconds) raises a flag in the run's work directory; a 1 s timer in every other shard sees it and abandons
+    the shard: the run is a violation already, waiting for every shard to exhaust its own budget adds nothing."""
+    if _flag_path() is None or not hasattr(signal, "setitimer"):
+        return
+    if not on:
+        signal.setitimer(signal.ITIMER_REAL, 0)
+        return
+
+    def tick(_sig: int, _frm: Any) -> None:
+        if _flag_is_up():
+            signal.setitimer(signal.ITIMER_REAL, 0)
+            raise _StopShard()
+
+    signal.signal(signal.SIGALRM, tick)
+    signal.setitimer(signal.ITIMER_REAL, 1.0, 1.0)
+
+
 def _runaway(fails: List[Tuple[str, str]]) -> bool:
     """Should the shard stop?  A budget hit costs minutes, and a defect that duplicates content can make
     every further (larger) case dearer: once a budget hit or MAX_FAILING_CASES failing cases are recorded
     the run is a violation anyway (the Recorder keeps 3 cases per key), so the rest of the shard is skipped."""
     if fails:
         _FAILING[0] += 1
-    return _FAILING[0] >= MAX_FAILING_CASES or any(k == "step_budget" or k.startswith("exception:MemoryError") for k, _ in fails)
+    hit = any(k.startswith("step_budget") or k.startswith("exception:MemoryError") for k, _ in fails)
+    if hit and _flag_path() is not None:
+        try:
+            open(_flag_path(), "w").close()  # type: ignore[arg-type]
+        except OSError:
+            pass
+    return hit or _FAILING[0] >= MAX_FAILING_CASES or _flag_is_up()
 
 
 def run_shard(spec: Dict[str, Any], rec: Any) -> None:
+    _watch_flag(True)
+    try:
+        _run_shard(spec, rec)
+    except _StopShard:
+        rec.count("shards_abandoned_after_runaway_elsewhere")
+    finally:
+        _watch_flag(False)
+
+
+def _run_shard(spec: Dict[str, Any], rec: Any) -> None:
     from vf.common import quiet_logging
 
     quiet_logging()
+    if _flag_is_up():
+        rec.count("shards_abandoned_after_runaway_elsewhere")
+        return
     tier = spec["tier"]
     kind = spec["kind"]
     if kind == "scene":
